@@ -6,6 +6,22 @@ import os
 HERE = os.path.dirname(os.path.dirname(os.path.abspath(__file__)))
 
 CLAIMED = {
+    "C02": dict(
+        category="model_checking",
+        text="The machine code emitted by the real x86-64 point and float-slice assemblers (build_asm_fn_with_storage on tapes built from "
+             "explicit RegOp lists: every opcode variant x register/immediate form, spill slots, consecutive choice clauses, 12 live "
+             "registers across libm calls, every frame-size residue) is disassembled and executed symbolically into SMT with ALL register, "
+             "flag, stack and buffer contents symbolic; z3 decides per scenario that every output lane equals the opcode semantics "
+             "(bit-identical, NaN=NaN, sign of zero free only after min/max), that callee-saved registers, rsp and the caller's frame are "
+             "preserved, the stack is 16-byte aligned at calls and no access leaves the buffers/frame, for slice sizes 0, 8 and 16.",
+        design="DESIGN.md §4 C02",
+        note="Trusted: objdump's decoder; the x86 instruction semantics in lib/x86smt.py (validated every run against the real JIT function "
+             "on this CPU by asserting concrete inputs); the opcode specification in lib/jitsmt.py (IEEE ops of the SMT FP theory, "
+             "uninterpreted libm shared by both sides); z3. Outside: aarch64; tapes beyond the scenarios; the Rust bulk driver "
+             "(JitBulkEval::eval remainder handling); libm values.",
+        technique="symbolic execution of the emitted x86-64 machine code into SMT-LIB (QF_BVFP+UF), decided by z3",
+        engine="E-X",
+    ),
     "C01": dict(
         category="translation_validation",
         text="Translation validation of the real compiler passes: tvdump runs the real SsaTape::new, VmData::<N>::new and "
@@ -100,7 +116,6 @@ NOT_APPLICABLE = {
     "C17": "Scripts: the unit is the Rhai interpreter (string parser + dynamic dispatch), far beyond bounded symbolic execution here.",
     "C19": "Constraint solver: HashMap<Var,_> API, dynamic nalgebra matrices and an SVD-based LM loop; hash-map and nalgebra code alone cost minutes per call under CBMC and the claims are numeric.",
     # not yet built (kept current as checks are added)
-    "C02": "not yet built in this revision (planned: E-X x86-64 lifter, DESIGN.md §4)",
     "C10": "not yet built in this revision (planned, DESIGN.md §4)",
     "C12": "not yet built in this revision (planned: E-TV with FP theory, DESIGN.md §4)",
     "C13": "not yet built in this revision (planned, DESIGN.md §4)",
@@ -109,7 +124,7 @@ NOT_APPLICABLE = {
     "C18": "not yet built in this revision (planned, DESIGN.md §4)",
 }
 
-HOOK_COMMITS = ["6f64d81"]
+HOOK_COMMITS = ["6f64d81", "a9b3eaa"]
 
 
 def main():
@@ -139,6 +154,8 @@ def main():
             "add_only": True,
         },
         "engines": [
+            {"name": "E-X", "path": "/verif/lib/x86smt.py", "serves_properties": ["C02"],
+             "kind_free_text": "tvdump assembles tapes with the real fidget-jit assemblers; lib/lifter.py + lib/x86smt.py + lib/jitsmt.py execute the machine code symbolically into SMT for z3"},
             {"name": "E-TV", "path": "/verif/tv", "serves_properties": ["C01", "C04", "C15"],
              "kind_free_text": "tvdump (Rust, path dependency on /repo) runs the real compiler passes natively on enumerated programs; lib/tv_engine.py encodes each input/output pair for z3"},
             {"name": "E-K", "path": "/verif/kani", "serves_properties": ["C03", "C05", "C11", "C20"],
